@@ -4,7 +4,7 @@ import os
 from .. import core, patterns as P
 
 ALL9 = ["GET", "POST", "PUT", "PATCH", "DELETE", "OPTIONS", "HEAD", "CONNECT", "TRACE"]
-POOL = ["/a/{x}", "/{x}/{y}", "/a/1", "/a/{x:dig}", "/{x}", "/a[/{x}]", "/*", "/a/{x}/b", "/a/a[.1]"]
+POOL = ["/a/{x}", "/{x}/{y}", "/a/1", "/a/{x:dig}", "/{x}", "/a[/{x}]", "/*", "/a/{x}/b", "/a/a[.1]", "/a/{x}/"]
 TABLES = {
     "overlap": [("/a/{x}", ["GET"]), ("/{x}/{y}", ["GET"]), ("/a/1", ["GET"]), ("/a/{x:dig}", ["POST"]), ("/{x}", ["GET", "POST"])],
     "headget": [("/a/{x}", ["GET"]), ("/{x}", ["HEAD"]), ("/a[/{x}]", ["GET"]), ("/{x}/{y}", ["HEAD", "DELETE"])],
@@ -12,10 +12,13 @@ TABLES = {
     "methodsets": [("/a/{x:dig}", ["POST", "PUT"]), ("/a/{x}", ["GET", "POST"]), ("/{x}/{y}", ["PUT", "DELETE"])],
     # a dynamic route WITHOUT variables (optional part only): it is matched by regex and must be cached like the others
     "optional": [("/a/a[.1]", ["GET"]), ("/a/{x}", ["GET", "POST"])],
+    # StrictLastSlash: the two spellings of a URL are different requests (and may be different routes)
+    "strict": [("/a/{x}", ["GET"]), ("/a/{x}/", ["GET", "POST"])],
+    "strict1": [("/a/{x}/", ["GET"])],
     "notallowed": [("/a/{x}", ["POST"]), ("/a/{x:dig}", ["PUT"]), ("/{x}/{y}", ["DELETE"]), ("/*", ALL9), ("/a/{x}/b", ["GET"])],
 }
 REQUESTS = [("GET", "/a/1"), ("GET", "/a/a"), ("POST", "/a/1"), ("HEAD", "/a/1"), ("GET", "/1/a"), ("DELETE", "/a/a"),
-            ("GET", "/a"), ("OPTIONS", "/a/1"), ("HEAD", "/a"), ("PUT", "/a/1"), ("HEAD", "/a/a")]
+            ("GET", "/a"), ("OPTIONS", "/a/1"), ("HEAD", "/a"), ("PUT", "/a/1"), ("HEAD", "/a/a"), ("GET", "/a/1/")]
 DEV = dict(D_IrregularOverwrite=False, D_QuotedStart=False, D_VarlessOptionalIrregular=False, D_EmptyCheckBeforeTrim=False,
            D_InterceptRaw=False, D_FallbackBeforeHead=False, D_AllowProbeHeadFallback=False,
            D_CacheKeyFirstSegment=False, D_CacheKeyNoMethod=False, D_CacheSkipsStable=False,
